@@ -413,14 +413,10 @@ def case_ufunc(ctx, inp):
                 ctx.fail(f"da.{dname}(dtype=): lazy dtype differs from NumPy", observed=str(res.dtype), expected=str(ref.dtype))
             if np.asarray(got).dtype != res.dtype:
                 ctx.fail(f"da.{dname}(dtype=): computed dtype differs from the lazy dtype", observed=str(np.asarray(got).dtype), expected=str(res.dtype))
-            if np.asarray(got).shape == ref.shape and ref.dtype.kind in "fc":
-                # NumPy computes IN the target type, dask computes in the natural type and casts: compare with tolerance
-                if not np.allclose(got, ref, rtol=1e-5, atol=1e-6, equal_nan=True):
-                    ctx.fail(f"da.{dname}(dtype=) differs from np.{nname}(dtype=)")
-                ctx.branch("explicit-dtype")
-                ctx.note("ufunc:" + dname)
-                return
+            # NumPy computes IN the target type (dtype= selects the loop: the inputs are cast first); so must dask
+            # (a57c947: it used to compute in the natural type and cast the result) — compared exactly below
             ctx.branch("explicit-dtype")
+            ctx.branch("explicit-dtype-%s-to-%s" % (np.dtype(inp["dtype"]).kind, np.dtype(tgt).kind))
         else:
             ref = ref0
             try:
@@ -435,7 +431,8 @@ def case_ufunc(ctx, inp):
     if not _same(got, ref):
         got = np.asarray(got)
         ctx.fail(f"da.{dname} differs from np.{nname} ({mode})",
-                 observed={"dtype": str(got.dtype), "shape": list(got.shape)}, expected={"dtype": str(ref.dtype), "shape": list(ref.shape)})
+                 observed={"dtype": str(got.dtype), "shape": list(got.shape)}, expected={"dtype": str(ref.dtype), "shape": list(ref.shape)},
+                 sig="ufunc:dtype-kwarg-casts-result-only" if mode == "dtype" else None)
     ctx.note("ufunc:" + dname)
 
 
@@ -455,8 +452,11 @@ def gen_ufunc(rng, uf):
     except ValueError:
         shape2 = list(shape)
         outshape = list(shape)
-    mode = rng.choice(["plain", "plain", "where_out", "out", "dtype"]) if kind == "ufunc" else "plain"
-    target = {"f8": "f4", "f4": "f8", "i8": "f8", "i4": "i8", "u1": "i4", "bool": "i8", "c16": "c16"}.get(dtype, "f8")
+    mode = rng.choice(["plain", "plain", "where_out", "out", "dtype", "dtype"]) if kind == "ufunc" else "plain"
+    # dtype= selects the loop NumPy computes in: targets in which the operation gives OTHER values than in the natural
+    # type (integers -> float for divisions/reciprocal, unsigned -> signed for invert/negative, narrow -> wide for overflow)
+    target = rng.choice({"f8": ["f4", "c16"], "f4": ["f8"], "i8": ["f8", "f8", "c16"], "i4": ["i8", "f8", "f8"],
+                         "u1": ["i4", "i8", "f8", "u1"], "bool": ["i8", "u1", "f8"], "c16": ["c16"]}.get(dtype, ["f8"]))
     wshape = [s if rng.random() < 0.6 else 1 for s in outshape][rng.randint(0, len(outshape)):]
     return {"ufunc": list(uf), "shape": shape, "shape2": shape2, "dtype": dtype, "salt": rng.randint(0, 50),
             "chunks": U.rand_chunks(rng, shape), "chunks2": U.rand_chunks(rng, shape2), "mode": mode,
